@@ -175,7 +175,30 @@ def hir_accepts(h, s):
         if k == 'empty':
             yield i
         elif k == 'look':
-            yield i   # anchors/word boundaries are checked by the caller where it matters
+            # the string stands alone (blanks / line ends around it): outside is non-word
+            def w(c, ascii_only):
+                if c is None:
+                    return False
+                if ascii_only:
+                    return c.isascii() and (c.isalnum() or c == '_')
+                return c.isalnum() or c == '_' or unicodedata.category(c).startswith('M')
+            prev = s[i - 1] if i > 0 else None
+            nxt = s[i] if i < len(s) else None
+            lk = h['look']
+            if lk in ('word', 'word_ascii'):
+                if w(prev, lk == 'word_ascii') != w(nxt, lk == 'word_ascii'):
+                    yield i
+            elif lk in ('word_neg', 'word_ascii_neg'):
+                if w(prev, lk == 'word_ascii_neg') == w(nxt, lk == 'word_ascii_neg'):
+                    yield i
+            elif lk in ('start', 'start_lf', 'start_crlf'):
+                if i == 0:
+                    yield i
+            elif lk in ('end', 'end_lf', 'end_crlf'):
+                if i == len(s):
+                    yield i
+            else:
+                yield i
         elif k == 'lit':
             if s.startswith(h['s'], i):
                 yield i + len(h['s'])
@@ -325,3 +348,52 @@ class Config:
             for it in t['items']:
                 out.append((t['name'], it))
         return out
+
+
+def decode_fmt_template(text):
+    """rustc's compact format_args template (byte string constant) -> list of literal pieces and None for each
+    placeholder, e.g. b"\\x02\\\\b\\xc0\\x02\\\\b\\x00" -> ['\\b', None, '\\b'].  Fails closed on anything it does not know."""
+    m = re.match(r'^(?:const )?b"(.*)"$', text, re.S)
+    if not m:
+        raise AnchorLost('format template is not a byte-string constant: %r' % text[:60])
+    raw = m.group(1)
+    out = bytearray()
+    i = 0
+    while i < len(raw):
+        c = raw[i]
+        if c == '\\':
+            n = raw[i + 1]
+            if n == 'x':
+                out.append(int(raw[i + 2:i + 4], 16))
+                i += 4
+            elif n in '\\"\'':
+                out.append(ord(n))
+                i += 2
+            elif n == 'n':
+                out.append(10); i += 2
+            elif n == 't':
+                out.append(9); i += 2
+            elif n == 'r':
+                out.append(13); i += 2
+            elif n == '0':
+                out.append(0); i += 2
+            else:
+                raise AnchorLost('unknown escape in format template')
+        else:
+            out += c.encode('utf-8')
+            i += 1
+    pieces = []
+    j = 0
+    while j < len(out):
+        b = out[j]
+        if b == 0:
+            break
+        if b < 0x80:
+            pieces.append(bytes(out[j + 1:j + 1 + b]).decode('utf-8'))
+            j += 1 + b
+        elif b == 0xc0:
+            pieces.append(None)
+            j += 1
+        else:
+            raise AnchorLost('format template uses a placeholder encoding (0x%02x) the decoder does not know' % b)
+    return pieces
